@@ -1,7 +1,8 @@
 /-
   Hand-written model of the CEL → Go translator (internal/validator/rules/cel.go: convertASTToGo and
   everything below it, after the precedence / unary-operator fix). `none` = a construct the model
-  does not cover (comprehension macros, bytes constants); everything else is transcribed function by
+  does not cover (comprehension macros, bytes constants) or one the translator refuses (functions and
+  methods without a translation: generation stops); everything else is transcribed function by
   function, including the text tests the real code performs on already rendered operands.
   Tied to the real generator by corr-cel: for every expression of the run the emitted condition must
   equal `"!(" ++ render (toGo ast) ++ ")"` up to white space and semicolons (gofmt).
@@ -71,13 +72,14 @@ def builtinText (fn : String) (args : List String) : Option String :=
   | "duration", [a] => some ("func() time.Duration { d, err := time.ParseDuration(" ++ a ++ "); if err != nil { return 0 }; return d }()")
   | _, _ => none
 
-def methodText (fn target : String) (args : List String) : String :=
+/-- `convertMethodCall`; `none` = "unknown method": the conversion is refused (`fallback` records it) -/
+def methodText (fn target : String) (args : List String) : Option String :=
   match fn, args with
-  | "startsWith", [a] => "strings.HasPrefix(" ++ target ++ ", " ++ a ++ ")"
-  | "endsWith", [a] => "strings.HasSuffix(" ++ target ++ ", " ++ a ++ ")"
-  | "contains", [a] => "strings.Contains(" ++ target ++ ", " ++ a ++ ")"
-  | "matches", [a] => "regexp.MustCompile(" ++ a ++ ").MatchString(" ++ target ++ ")"
-  | _, _ => "true"
+  | "startsWith", [a] => some ("strings.HasPrefix(" ++ target ++ ", " ++ a ++ ")")
+  | "endsWith", [a] => some ("strings.HasSuffix(" ++ target ++ ", " ++ a ++ ")")
+  | "contains", [a] => some ("strings.Contains(" ++ target ++ ", " ++ a ++ ")")
+  | "matches", [a] => some ("regexp.MustCompile(" ++ a ++ ").MatchString(" ++ target ++ ")")
+  | _, _ => none
 
 /-- a binary operator application, operands already converted (and wrapped by `convertOperand`) -/
 def binFlat (sym : String) (l r : Flat) : Flat :=
@@ -111,16 +113,15 @@ def toGo (field : String) : Expr → Option Flat
     | some fs => some (opq ("[]interface{}{" ++ ", ".intercalate (fs.map render) ++ "}"))
   | .mcall fn target args =>
     match toGo field target, toGoList field args with
-    | some t, some as => some (opq (methodText fn (render t) (as.map render)))
+    | some t, some as => (methodText fn (render t) (as.map render)).map opq
     | _, _ => none
   | .call fn args =>
     match toGoList field args with
     | none => none
     | some as =>
       -- convertOperator
-      let viaBuiltin : Flat := match builtinText fn (as.map render) with
-        | some t => opq t
-        | none => single "true" (.bool true)                       -- trueFallback
+      -- a function without a translation: `fallback` records it and `convertCELToGo` fails (generation stops)
+      let viaBuiltin : Option Flat := (builtinText fn (as.map render)).map opq
       match fn, args, as with
       | "_?_:_", [_, _, _], [c, a, b] =>
         some (opq ("func() int { if " ++ render c ++ " { return " ++ render a ++ " }; return " ++ render b ++ " }()") ++ [.op ">"] ++ single "0" (.int 0))
@@ -128,12 +129,12 @@ def toGo (field : String) : Expr → Option Flat
       | _, [_], [x] =>
         if fn == "!_" then some (single ("!(" ++ render x ++ ")") (.not (treeOf x)))
         else if fn == "-_" then some (single ("-(" ++ render x ++ ")") (.neg (treeOf x)))
-        else some viaBuiltin
+        else viaBuiltin
       | _, [a0, a1], [l, r] =>
         match fnSym fn with
         | some sym => some (binFlat sym (wrapIf (needsParen a0 (fnPrec fn) false) l) (wrapIf (needsParen a1 (fnPrec fn) true) r))
-        | none => some viaBuiltin
-      | _, _, _ => some viaBuiltin
+        | none => viaBuiltin
+      | _, _, _ => viaBuiltin
 
 def toGoList (field : String) : List Expr → Option (List Flat)
   | [] => some []
